@@ -96,6 +96,9 @@ struct c06_session : public vsim_session {
           std::vector<colvarvalue> xv;
           for (size_t i = 0; i < b->num_variables(); i++) xv.push_back(b->variables(i)->value());
           o << " X=" << hexlist(xv);
+          std::vector<colvarvalue> av;      // values of the collective variable proper (differ from X for extended-Lagrangian variables)
+          for (size_t i = 0; i < b->num_variables(); i++) av.push_back(b->variables(i)->actual_value());
+          o << " AX=" << hexlist(av);
         }
         if (colvarbias_restraint_centers *c = dynamic_cast<colvarbias_restraint_centers *>(b)) o << " C=" << hexlist(c->colvar_centers);
         if (colvarbias_restraint_k *k = dynamic_cast<colvarbias_restraint_k *>(b)) o << " K=" << vs_hex(k->force_k);
